@@ -68,6 +68,37 @@ func (in *Interp) cidFromBytes(b Value) Value {
 	return tuple(zeroCid(), in.newErr("invalid cid bytes", Value{}))
 }
 
+// concrete inputs that have the outer shape of a real identifier go to the real parser; everything else is
+// "not a CID" in the model
+func plausibleCidBytes(b []byte) bool {
+	if len(b) == 34 && b[0] == 0x12 && b[1] == 0x20 {
+		return true // CIDv0: a bare sha2-256 multihash
+	}
+	return len(b) >= 36 && b[0] == 0x01 && b[2] == 0x12 && b[3] == 0x20 && len(b) == 36 // CIDv1, one-byte codec, sha2-256
+}
+
+func plausibleCidText(s string) bool {
+	if len(s) == 46 && strings.HasPrefix(s, "Qm") {
+		return true
+	}
+	return len(s) >= 50 && (s[0] == 'b' || s[0] == 'z')
+}
+
+func concByteCells(v Value) ([]byte, bool) {
+	if v.K != KSlice || v.R == nil {
+		return nil, false
+	}
+	cells := v.R.(*SliceV).S
+	out := make([]byte, len(cells))
+	for i, c := range cells {
+		if c.K != KInt || c.R != nil {
+			return nil, false
+		}
+		out[i] = byte(c.N)
+	}
+	return out, true
+}
+
 func cidOf(a *Atom) Value { return Value{K: KStruct, R: []Value{atomStr(a, "bin")}} }
 
 func cidAtom(v Value) (*Atom, bool) {
@@ -384,9 +415,15 @@ func init() {
 		// (atoms); every other text or byte string is "not a CID" and yields an error (go-cid's own parsing of
 		// malformed input is outside the claim).
 		"github.com/ipfs/go-cid.Decode": func(in *Interp, fr *Frame, a []Value) (Value, bool) {
+			if cs, ok := a[0].ConcStr(); ok && plausibleCidText(cs) {
+				return declined() // a real identifier built by the harness: the real go-cid parser
+			}
 			return in.cidFromText(a[0]), true
 		},
 		"github.com/ipfs/go-cid.Cast": func(in *Interp, fr *Frame, a []Value) (Value, bool) {
+			if bs, ok := concByteCells(a[0]); ok && plausibleCidBytes(bs) {
+				return declined()
+			}
 			return in.cidFromBytes(a[0]), true
 		},
 		"github.com/ipfs/go-cid.Parse": func(in *Interp, fr *Frame, a []Value) (Value, bool) {
